@@ -40,7 +40,10 @@ def ble_op(rng, o):
     return f"{o} get channel"
 
 
-def session(rng, nblocks, depth):
+def session(rng, nblocks, depth, overlap=False):
+    """`overlap`: some blocks are not left before another object enters (outside the property's
+    hypothesis; `__enter__` must still restore everything and find CE low — C09_enter holds in every
+    world — so these sessions tie that part of the model to the code)"""
     nobj = rng.choice([2, 3])
     names = ["a", "b", "c"][:nobj]
     kinds = {n: rng.choice(["rf24", "rf24", "ble"]) for n in names}
@@ -56,7 +59,11 @@ def session(rng, nblocks, depth):
                 if "carrier_wave" in op or "load_ack" in op:
                     continue
                 ops.append(op)
-        ops.append(f"{n} exit")
+        if overlap and rng.random() < 0.5:
+            if kinds[n] != "ble" or rng.random() < 0.5:
+                ops.append(f"{n} set listen T")     # leave CE high behind
+        else:
+            ops.append(f"{n} exit")
     plus = rng.random() < 0.8
     return f"rf 1 {1 if plus else 0} " + " ; ".join(ops)
 
@@ -75,12 +82,59 @@ class C09(PropCheck):
 
     def cases(self, res, tier, rng):
         n, nb, d = (200, 8, 10) if tier == "quick" else (3000, 14, 16)
-        return [(session(rng, nb, d), "with-interleavings") for _ in range(n)]
+        cs = [(session(rng, nb, d), "with-interleavings") for _ in range(n)]
+        cs += [(session(rng, nb, 4, overlap=True), "overlapping-blocks") for _ in range(n // 4)]
+        return cs
 
     def nontrivial(self, line, io):
         return line.count(" enter") >= 3
 
     def judge(self, triples):
+        """the Python rendering of the spec, cross-checked by the Lean one (Spec.Restored / Spec.PoweredDown
+        through the driver ops `specc09 …`): a re-entry / exit the Lean spec rejects is a finding, too"""
+        out = self.judge_py(triples)
+        seen = {f.case for f in out}
+        lines, where = [], []
+        for l, io, mo in triples:
+            if " enter" not in l or not l.startswith("rf 1 ") or l in seen:
+                continue
+            names, ops = l.split(" ; "), parse_out(io)
+            est = {}
+            for k, (name, o) in enumerate(zip(names, ops)):
+                t = name.split()
+                if k == 0:
+                    t = t[3:]
+                if not o["radios"]:
+                    continue
+                r = o["radios"][0]
+                obj = t[1] if t[0] == "new" else t[0]
+                cur = " ".join(str(r.get(ck)) for ck in CFG_KEYS)
+                if t[-1] == "enter" and obj in est:
+                    lines.append(f"specc09 enter {est[obj]} ~ {cur}")
+                    where.append((l, k, obj))
+                if t[-1] == "exit":
+                    lines.append(f"specc09 exit {r['cfg']} {r['ce']}")
+                    where.append((l, k, obj))
+                est[obj] = cur
+        try:
+            answers = run_driver(lines) if lines else []
+        except Infra:
+            return out
+        for (l, k, obj), line, ans in zip(where, lines, answers):
+            if ans == "ok" or l in seen:
+                continue
+            if not ans.startswith("fail"):
+                raise Infra(f"specc09 rejected its input: {ans}: {line[:300]}")
+            seen.add(l)
+            cls = None
+            if l.startswith("rf 1 0 ") and ans in ("fail dyn", "fail feat"):
+                cls = "nonplus-activate"
+            what = (f"entering {obj}'s block: register {ans[5:]} differs from what the object had established (Spec.Restored)"
+                    if line.startswith("specc09 enter") else f"leaving {obj}'s block: not powered down with CE low (Spec.PoweredDown)")
+            out.append(Finding(l, f"op {k}: {what}", {"op_index": k, "class": cls}))
+        return out
+
+    def judge_py(self, triples):
         out = []
         for l, io, mo in triples:
             if " enter" not in l or not l.startswith("rf 1 "):
